@@ -22,7 +22,8 @@ def sh(cmd, cwd=None, timeout=3000):
 def main():
     prop, sdir = sys.argv[1], sys.argv[2].rstrip("/")
     checks = sys.argv[3:] or [prop]
-    name = "%s-%s" % (prop, os.path.basename(sdir))
+    base = os.path.basename(sdir)
+    name = base if base.startswith(prop + "-") else "%s-%s" % (prop, base)
     patch = os.path.join(sdir, "patch.diff")
     demos = [f for f in glob.glob(os.path.join(sdir, "*.rs"))]
     meta = {"id": name, "property": prop, "source": "independent sub-agent given only the property text", "confirmed": {}}
@@ -87,6 +88,12 @@ def main():
         meta["needs_to_manifest"] = open(notes).read()[:3000]
     dst = os.path.join(VERIF, "seeded", name)
     os.makedirs(dst, exist_ok=True)
+    try:
+        old = json.load(open(os.path.join(dst, "meta.json")))
+        # the verdicts of the first evaluation (before any strengthening) are kept
+        meta["first_run"] = old.get("first_run") or old.get("checks")
+    except (OSError, ValueError):
+        pass
     shutil.copy(patch, os.path.join(dst, "patch.diff"))
     for d in demos:
         shutil.copy(d, dst)
